@@ -163,8 +163,17 @@ func ZZ_C05_refresh_step() {
 		zz.Assume(err == nil)
 		rt0 = world.RefreshTokenOf(resp)
 	} else {
+		reqScope, reqAud := strings.Join(granted, " "), aud0
+		if zz.Choice("partial-grant", 2) == 1 {
+			// the resource owner granted only part of what the client asked for: one more scope and one more
+			// audience were requested (and allowed by the registration at that time) but NOT granted
+			zz.Cover("origin:partial-grant", true)
+			reqScope, reqAud = reqScope+" zzextra", aud0+" https://extra.example/api"
+			c1.Scopes = append(c1.Scopes, "zzextra")
+			c1.Audience = append(c1.Audience, "https://extra.example/api")
+		}
 		code, err := wd.AuthorizeGrant(url.Values{"client_id": {"c1"}, "response_type": {"code"}, "redirect_uri": {"https://c1.example/cb"},
-			"scope": {strings.Join(granted, " ")}, "audience": {aud0}, "state": {"state-0123456789"}}, subject, granted, []string{aud0})
+			"scope": {reqScope}, "audience": {reqAud}, "state": {"state-0123456789"}}, subject, granted, []string{aud0})
 		zz.Assume(err == nil)
 		resp, err := wd.Redeem("c1", code)
 		zz.Assume(err == nil)
